@@ -24,10 +24,12 @@ ordered -> plain) transcribed member by member.  Helper lemmas: `Lemmas/SimplexO
   cache, ordered values) equals the source's, whatever the target was before.
 
 Admissible (`Adm`): constructors with arguments inside the property's quantifier; setters with such
-arguments OR, on objects built with the strict constraint, with ANY argument (except
-`OrderedSimplex::setFrequencies`, whose values must be strictly decreasing and sum to one exactly:
-for a sum within 1e-6 of one the stored values and the normalised probabilities differ by that
-amount — rounding territory); copies: any; the assignment through a base-class reference
+arguments OR, on objects built with the strict constraint, with ANY values (`setFrequencies` of a
+plain `Simplex`: a vector of at least `dim` entries — a shorter one is read out of bounds by the C++,
+undefined behaviour about which nothing is claimed; `OrderedSimplex::setFrequencies`: values strictly
+decreasing and summing to one exactly — for a sum within 1e-6 of one the stored values and the
+normalised probabilities differ by that amount, rounding territory — or a non-empty vector of another
+size, which the repaired code rejects); copies: any; the assignment through a base-class reference
 (`baseAssign`) is excluded: `baseAssign_breaks_values`.
 -/
 namespace Bpp.C19
@@ -60,7 +62,7 @@ theorem stale_cache_never_read (a b : Obj ℝ) (h : EqButCache a b) :
   fire_ignores_cache a b h
 
 /-- the frequency setter on an object satisfying the invariant (vector inside the quantifier, or any
-vector under the strict constraint): the invariant holds afterwards whether the call raised or
+vector of at least `dim` entries under the strict constraint): the invariant holds afterwards whether the call raised or
 not; if it did not, the cache is fresh; if it did, every member but the cache is as before -/
 theorem setFrequencies_preserves (o : Obj ℝ) (h : OK o) (p : List ℝ) (hp : SetFreqArg o p) :
     OK (o.setFrequencies p).1 ∧ SameShape o (o.setFrequencies p).1 ∧
@@ -130,6 +132,60 @@ theorem rejected_setFrequencies_leaves_stale_cache :
     have := hf rfl
     simp [staleWitness, Obj.θ, alphas] at this
     norm_num at this
+
+/-- the repaired `OrderedSimplex::setFrequencies` rejects every non-empty vector whose size is not
+the dimension (shorter ones, formerly read out of bounds, included) and leaves the object untouched -/
+theorem ordered_setFrequencies_rejects_wrong_size (o : Obj ℝ) (v : List ℝ) (h0 : v.length ≠ 0)
+    (h1 : v.length ≠ o.dim) : o.oSetFrequencies v = (o, some Err.sum) :=
+  oSetFrequencies_wrong_size o v h0 h1
+
+/-- the object built by `OrderedSimplex({7/10, 3/10}, method 1)` -/
+noncomputable def longWitness : Obj ℝ :=
+  ⟨[⟨2/5, false⟩], 2, 1, [2/5, 3/5], [], some [7/10, 3/10]⟩
+
+/-- DEFECT OF THE UNCHANGED TREE (repaired, findings/C19.json): `OrderedSimplex::setFrequencies` did
+not test the size of its argument.  A vector LONGER than the dimension is defined behaviour there
+(the function works with the argument's size, the base class reads the first `dim_` entries): the
+three values (1/2, 3/10, 1/5) given to a two-dimensional object were accepted, the probabilities
+became (1/5, 4/5) and `getFrequencies()` returned three values — after the next notification
+(0.625, 0.375, 0.2), sum 1.2 (corpus/C19/ordered_long_vector.txt).  The repaired setter raises. -/
+theorem ordered_setFrequencies_unchecked_long_vector :
+    OK longWitness ∧
+    longWitness.oSetFrequenciesUnchecked [1/2, 3/10, 1/5] =
+      (⟨[⟨1/5, false⟩], 2, 1, [1/5, 4/5], [], some [1/2, 3/10, 1/5]⟩, none) ∧
+    ¬ OK (longWitness.oSetFrequenciesUnchecked [1/2, 3/10, 1/5]).1 ∧
+    longWitness.oSetFrequencies [1/2, 3/10, 1/5] = (longWitness, some Err.sum) := by
+  have hp : orderedToProbs ([1/2, 3/10, 1/5] : List ℝ) 1 = [1/5, 1/5, 3/5] := by
+    simp [orderedToProbs]; norm_num
+  have hs : sumOk ([1/5, 1/5, 3/5] : List ℝ) = true := sumOk_of _ (by norm_num)
+  have h3 : List.take 2 ([1/5, 1/5, 3/5] : List ℝ) = [1/5, 1/5] := rfl
+  have hpar : paramsOf 1 ([1/5, 1/5] : List ℝ) = [1/5] := by
+    simp [paramsOf, paramsGlobal]
+  have h12 : ((1 : ℕ) = 2) = False := eq_false (by decide)
+  have ht : testFrom (reqOfList ([1/5] : List ℝ)) 1 ([⟨2/5, false⟩] : List (Param ℝ)) = true := by
+    simp [testFrom, reqOfList, inConstraint, Scalar.gtb, Scalar.ltb]; norm_num
+  have hc : changedFrom (reqOfList ([1/5] : List ℝ)) 1 ([⟨2/5, false⟩] : List (Param ℝ)) = true := by
+    simp [changedFrom, reqOfList, Scalar.eqb]; norm_num
+  have hw : writeFrom (reqOfList ([1/5] : List ℝ)) 1 ([⟨2/5, false⟩] : List (Param ℝ)) = [⟨1/5, false⟩] := by
+    simp [writeFrom, reqOfList, Scalar.eqb]
+    try norm_num
+  have hf : (⟨[⟨1/5, false⟩], 2, 1, [2/5, 3/5], [], some [7/10, 3/10]⟩ : Obj ℝ).fire =
+      ⟨[⟨1/5, false⟩], 2, 1, [1/5, 4/5], [], some (orderedValues [1/5, 4/5] 1)⟩ := by
+    simp [Obj.fire, Obj.fireBase, Obj.refresh, Obj.θ, probsGlobal]; norm_num
+  have e : longWitness.oSetFrequenciesUnchecked [1/2, 3/10, 1/5] =
+      (⟨[⟨1/5, false⟩], 2, 1, [1/5, 4/5], [], some [1/2, 3/10, 1/5]⟩, none) := by
+    simp only [Obj.oSetFrequenciesUnchecked, longWitness, hp, Obj.setFrequenciesBase, hs, Obj.cacheWrite, Obj.matchReq,
+      ↓reduceIte, Bool.not_true, Bool.false_eq_true, List.length_cons, List.length_nil, Nat.reduceAdd,
+      OfNat.ofNat_ne_zero, h12, h3, hpar, ht, hc, hw, hf, Nat.reduceLT]
+  refine ⟨⟨⟨Or.inl rfl, by norm_num [longWitness], by norm_num [longWitness], rfl, ?_, by simp [longWitness]⟩, ?_, ?_⟩, e, ?_, ?_⟩
+  · intro x hx; simp [longWitness, Obj.θ] at hx; rw [hx]; norm_num
+  · simp [longWitness, Obj.θ, probsOf, probsGlobal]; norm_num
+  · intro v hv; simp [longWitness] at hv; rw [← hv]; simp [longWitness, orderedValues]; norm_num
+  · rw [e]
+    intro hok
+    have := congrArg List.length (hok.values [1/2, 3/10, 1/5] rfl)
+    simp [orderedValues_length] at this
+  · exact oSetFrequencies_wrong_size longWitness _ (by simp) (by simp [longWitness])
 
 /-! ## the heap: all histories -/
 
@@ -348,6 +404,21 @@ example : AdmRun (Heap.empty 3 : Heap ℝ)
     · rw [h1] at e; simp at e; rw [← e]; norm_num
     · rw [List.getElem?_eq_none (by simpa using h2)] at e; cases e
   · intro o _; left; norm_num
+
+/-- the hypotheses of `history_cache_fresh` (`AdmRun` and `NoRaise`) hold together on a history
+that builds a plain global-ratio and an ordered local-ratio object with different constraints -/
+example : AdmRun (Heap.empty 2 : Heap ℝ) [.newDim 0 false 3 1 false, .newDim 1 true 4 2 true] ∧
+    NoRaise (Heap.empty 2 : Heap ℝ) [.newDim 0 false 3 1 false, .newDim 1 true 4 2 true] := by
+  refine ⟨⟨⟨Or.inl rfl, by norm_num, by norm_num⟩, ⟨Or.inr (Or.inl rfl), by norm_num, by norm_num⟩, trivial⟩, ?_, ?_, trivial⟩
+  · obtain ⟨o, e, _⟩ := SimplexObj.constructDim_ok 3 1 false (Or.inl rfl) (by norm_num) (by norm_num)
+    rcases create_effect (Heap.empty 2 : Heap ℝ) 0 (SimplexObj.constructDim 3 1 false) with ⟨_, _, _, h⟩ | ⟨err, h, _⟩
+    · exact h
+    · rw [e] at h; cases h
+  · obtain ⟨o, e, _⟩ := SimplexObj.oConstructDim_ok 4 2 true (Or.inr (Or.inl rfl)) (by norm_num) (by norm_num)
+    rcases create_effect (stepH (Heap.empty 2 : Heap ℝ) (.newDim 0 false 3 1 false)) 1
+      (SimplexObj.oConstructDim 4 2 true) with ⟨_, _, _, h⟩ | ⟨err, h, _⟩
+    · exact h
+    · rw [e] at h; cases h
 
 /-- the hypotheses of `copy_independent` / `assign_carries` are met by a reachable heap -/
 example : ∃ (h : Heap ℝ) (src : Obj ℝ), Sep h ∧ h.get 0 = some src ∧ 1 < h.regs.length ∧ OK src := by
